@@ -598,3 +598,56 @@ def decorator_regex(run, model, rule="C07.layout-regex"):
             bad = "only some of def / async def / class end the decorator, e.g. not %r" % [l for l in defs if not acc(l)][0]
         run.check(bad is None, rule, "_represent.inspect_decorator:line %d" % getattr(node, "lineno", 0), "patterns %s: decorator lines accepted, continuation lines rejected" % text, (bad or "") + " (patterns: %s)" % text, fi.loc(node), None, text)
     run.check(ends_on_def, rule, "_represent.inspect_decorator:end", "def / async def / class end the decorator", "no test recognises def, async def and class lines as the end of the decorator", fi.loc())
+
+
+def scan_bounds(run, model, rule="C07.scan-bounds"):
+    """The scans of ``inspect_decorator`` over the source lines reach the ends of the file: the upward scan for the
+    line that starts the decorator includes index 0 (a decorator on the very first line of a file / cell / snippet),
+    the downward scan for its end includes the last line."""
+    fi = model.func("_represent.inspect_decorator")
+    lines_names = set()
+    count = 0
+    for sub in ast.walk(fi.node):
+        if not isinstance(sub, ast.For) or not isinstance(sub.target, ast.Name):
+            continue
+        it = sub.iter
+        rev = False
+        if isinstance(it, ast.Call) and isinstance(it.func, ast.Name) and it.func.id == "reversed" and len(it.args) == 1:
+            it, rev = it.args[0], True
+        if not (isinstance(it, ast.Call) and isinstance(it.func, ast.Name) and it.func.id == "range" and not it.keywords and 1 <= len(it.args) <= 3):
+            continue
+        # the loop variable indexes a sequence of lines
+        idx = [s for st in sub.body for s in ast.walk(st) if isinstance(s, ast.Subscript) and isinstance(s.slice, ast.Name) and s.slice.id == sub.target.id and isinstance(s.value, ast.Name)]
+        if not idx:
+            continue
+        seq = idx[0].value.id
+        args = it.args
+        start = args[0] if len(args) >= 2 else ast.Constant(value=0)
+        stop = args[1] if len(args) >= 2 else args[0]
+        step = args[2] if len(args) == 3 else ast.Constant(value=1)
+
+        def const(e):
+            if isinstance(e, ast.Constant) and isinstance(e.value, int):
+                return e.value
+            if isinstance(e, ast.UnaryOp) and isinstance(e.op, ast.USub) and isinstance(e.operand, ast.Constant) and isinstance(e.operand.value, int):
+                return -e.operand.value
+            return None
+
+        sv = const(step)
+        if sv is None:
+            continue
+        count += 1
+        down_in_index = (sv < 0) != rev  # indices visited in decreasing order
+        construct = "%s:%s" % (fi.qual, "upward-scan" if down_in_index else "downward-scan")
+        if down_in_index:
+            # decreasing: the lowest index visited must be 0
+            if sv < 0:
+                low_ok = const(stop) is not None and const(stop) <= -1
+            else:
+                low_ok = const(start) is not None and const(start) <= 0
+            run.check(low_ok, rule, construct, "the scan towards the top of the file includes its first line (index 0)", "`%s` never looks at index 0 of `%s`: a decorator that starts on the very first line of its source (a snippet, a notebook cell, a generated module) is not found, and the violation is replaced by a SyntaxError ('decorator could not be found')" % (src_of(sub.iter), seq), fi.loc(sub), None, src_of(sub.iter))
+        else:
+            hi = stop if sv > 0 else start
+            hi_ok = isinstance(hi, ast.Call) and isinstance(hi.func, ast.Name) and hi.func.id == "len" and len(hi.args) == 1 and isinstance(hi.args[0], ast.Name) and hi.args[0].id == seq
+            run.check(hi_ok, rule, construct, "the scan towards the end of the file includes its last line", "`%s` stops before the last line of `%s`: a decorator whose text ends on the last line of the file is cut short" % (src_of(sub.iter), seq), fi.loc(sub), None, src_of(sub.iter))
+    return count
